@@ -273,7 +273,9 @@ def eigen(X, P, NSIG=None, method='music', threshold=None, NFFT=default_NFFT,
     #FB2 = spectrum.linalg.corrmtx(X, P-1, method='modified')
 
     #Compute the eigen values / vectors
-    _U, S, V = svd (FB)
+    # only the singular values and the right singular vectors are used: the
+    # reduced form avoids the (2NP x 2NP) left factor
+    _U, S, V = svd(FB, full_matrices=False)
     # U and V are not the same as in Marple. Real or Imaginary absolute values
     # are correct but signs are not. This is wierd because the svd function
     # gives the same result as cvsd in Marple. Is FB correct ? it seems so.
